@@ -1,6 +1,7 @@
 import Obao.Model.GF256
 import Obao.Model.Threshold
 import Obao.Proofs.GF256Split
+import Obao.Proofs.GF256Quorum
 import Obao.Proofs.Threshold
 /-!
 C20 — property theorems (statements only; helper lemmas live in `Obao/Proofs/GF256*.lean`, `Proofs/Threshold.lean`).
@@ -320,6 +321,107 @@ example :
     let sh := split [66, 23] [1, 2, 3, 4] [[5, 7], [9, 11]]
     (run cfg [] [sh[0], sh[0], sh[1]]).2 = [.pending 1, .duplicate, .pending 2] ∧
     (run cfg [] [sh[0], sh[0], sh[1], sh[3]]).2 = [.pending 1, .duplicate, .pending 2, .key [66, 23]] := by
+  decide
+
+/-! ### 7. rotation / rekey / generate-root proceed only on a verified quorum
+(`rotate.go` `UpdateRotation`/`progressRotation`; same shape: `rekey.go` `BarrierRekeyUpdate`/`RecoveryRekeyUpdate`,
+`generate_root.go` `GenerateRootUpdate`). Verification of the recovered key (`VerifyRecoveryKey`; for a Shamir barrier:
+the recovered key must decrypt the stored root key) is modelled as equality with the key the current shares were
+dealt from (`cfg.secret`). -/
+
+open Obao.Threshold in
+/-- **rotation_requires_quorum.** For every configuration and **every** sequence `ks` of parts submitted to an
+operation (any values, repetitions, lengths), starting from no recorded parts, and every position `i` at which the
+operation proceeds: the parts `ps` of that attempt (the ones recorded since the last completed recovery) end with the
+part submitted at `i`, are pairwise distinct, were all submitted at or before `i`, are at least `threshold` many —
+exactly `threshold` — and verification passes **on exactly these parts**: `Parts[0]` (threshold 1) resp.
+`shamir.Combine(ps)` is the current key. `proceeds → verify ok`, and `verify ok` is decided by the model's `combine`
+on the submitted parts; nothing else lets a step proceed (`rotSubmit_proceeds_iff`). -/
+theorem rotation_requires_quorum (cfg : RotCfg) (ks : List Part) (i : Nat)
+    (h : (rotRun cfg [] ks).2[i]? = some .proceeds) :
+    ∃ (ps : List Part) (k : Part), ks[i]? = some k ∧ ps.getLast? = some k ∧ RotValid cfg k ∧ ps.Nodup ∧
+      (∀ p ∈ ps, p ∈ ks.take (i + 1)) ∧ cfg.threshold ≤ (ps.length : Int) ∧
+      ((ps.length : Int) = cfg.threshold ∨ ps.length = 1) ∧ Verified cfg ps := by
+  obtain ⟨ps, k, h1, h2, h3, h4, h5, h6, h7, h8⟩ := rotRun_proceeds_sound ks (rotInv_nil cfg) i h
+  exact ⟨ps, k, h1, h2, h3, h4, fun p hp => (h5 p hp).resolve_left (by simp), h6, h7, h8⟩
+
+open Obao.Threshold in
+/-- one step: the operation proceeds **iff** the part is acceptable and new, the attempt reaches the threshold and
+the key recovered from the attempt's parts verifies -/
+theorem rotation_step_iff (cfg : RotCfg) (st : List Part) (k : Part) :
+    (rotSubmit cfg st k).2 = .proceeds ↔
+      (RotValid cfg k ∧ k ∉ st ∧ cfg.threshold ≤ ((st ++ [k]).length : Int) ∧ Verified cfg (st ++ [k])) :=
+  rotSubmit_proceeds_iff cfg st k
+
+open Obao.Threshold in
+/-- **rotation_quorum_is_genuine.** The current key `secret` was dealt by `Split` with threshold `t ≥ 2`
+(coefficients `coeffs`, non-zero byte x-coordinates `xs`). Whenever an operation proceeds at position `i` of any
+submission sequence, the attempt consists of exactly `t` distinct submitted parts that `Combine` to `secret`, and
+none of them can be a forgery completing `t-1` genuine shares: if all parts of the attempt except the `j`-th are
+genuine shares, then the `j`-th (bytes) is itself the share `Split` deals for its x-coordinate. (With fewer than `t-1`
+genuine shares the holder knows nothing about the key — `below_threshold_consistent` — so a verified recovery from
+forged parts is a blind guess of the key, probability `256^-len`.) -/
+theorem rotation_quorum_is_genuine (secret xs : List Nat) (coeffs : List (List Nat)) (t : Nat)
+    (hsec : Bytes secret) (ht2 : 2 ≤ t) (hclen : coeffs.length = secret.length)
+    (hc : CoeffsWF (t - 1) coeffs) (hxs : Bytes xs) (hnz : ∀ x ∈ xs, x ≠ 0)
+    (lc : Option (Nat × Nat)) (ks : List Part) (i : Nat)
+    (h : (rotRun ⟨t, secret, lc⟩ [] ks).2[i]? = some .proceeds) :
+    ∃ ps : List Part, ps.Nodup ∧ (∀ p ∈ ps, p ∈ ks.take (i + 1)) ∧ ps.length = t ∧ combine ps = .ok secret ∧
+      ∀ j (hj : j < ps.length), Bytes ps[j] →
+        (∀ i' (hi : i' < ps.length), i' ≠ j → ps[i'] ∈ split secret xs coeffs) →
+        ps[j] = share secret coeffs (ps[j].getD secret.length 0) := by
+  obtain ⟨ps, k, _, _, _, hnd, hmem, hge, hlen, hver⟩ := rotation_requires_quorum ⟨t, secret, lc⟩ ks i h
+  have hlen' : ps.length = t := by
+    simp only at hge hlen
+    rcases hlen with hl | hl
+    · exact_mod_cast hl
+    · omega
+  have hcomb : combine ps = .ok secret := by
+    rcases hver with ⟨h1, _⟩ | ⟨_, h2⟩
+    · simp only at h1; omega
+    · exact h2
+  exact ⟨ps, hnd, hmem, hlen', hcomb, fun j hj hb hgen =>
+    forged_part_on_polynomial hsec hclen hc hxs hnz ps hlen' j hj hb hgen hcomb⟩
+
+open Obao.Threshold in
+/-- **rotation_quorum_suffices** (the other direction): `t` pairwise distinct genuine shares of the current key,
+submitted to one attempt, do let the operation proceed at the `t`-th. -/
+theorem rotation_quorum_suffices (secret xs : List Nat) (coeffs : List (List Nat)) (t : Nat)
+    (hsec : Bytes secret) (hne : secret ≠ []) (ht2 : 2 ≤ t) (hclen : coeffs.length = secret.length)
+    (hc : CoeffsWF (t - 1) coeffs) (hxs : Bytes xs)
+    (lc : Option (Nat × Nat)) (st : List Part) (k : Part) (hv : RotValid ⟨t, secret, lc⟩ k)
+    (hnd : (st ++ [k]).Nodup) (hgen : ∀ p ∈ st ++ [k], p ∈ split secret xs coeffs) (hlen : (st ++ [k]).length = t) :
+    rotSubmit ⟨t, secret, lc⟩ st k = ([], .proceeds) := by
+  have hk : k ∉ st := by
+    intro hm
+    have := List.nodup_append.1 hnd
+    exact this.2.2 k hm k (by simp) rfl
+  have hver : Verified ⟨t, secret, lc⟩ (st ++ [k]) :=
+    Or.inr ⟨by simp only; omega, combine_of_subset hsec hne ht2 hclen hc hxs hnd hgen (by omega)⟩
+  have hp := (rotSubmit_proceeds_iff ⟨t, secret, lc⟩ st k).2 ⟨hv, hk, by simp only; omega, hver⟩
+  rcases rotSubmit_state ⟨t, secret, lc⟩ st k with e | ⟨_, hlt, _⟩ | e
+  · exfalso
+    rcases rotSubmit_cases ⟨t, secret, lc⟩ st k with ⟨hnv, _⟩ | ⟨_, e2⟩
+    · exact hnv hv
+    · rcases rotSubmit_rest_cases ⟨t, secret, lc⟩ st k with ⟨hm, _⟩ | ⟨_, hlt, _⟩ | ⟨_, _, e3, _⟩
+      · exact hk hm
+      · simp only at hlt; omega
+      · rw [e2, e3] at e
+        have : st = [] := e.symm
+        subst this
+        simp at hlen; omega
+  · simp only at hlt; omega
+  · exact Prod.ext e hp
+
+open Obao.Threshold in
+/-- the rotation accounting is live: a forged completion is refused and resets the attempt, a repeated share does
+not count, two distinct genuine shares at threshold 2 proceed; a path with a length check rejects first -/
+example :
+    let sh := split [66, 23] [1, 2, 3] [[5], [9]]
+    (rotRun ⟨2, [66, 23], none⟩ [] [sh[0], [1, 2, 7], sh[0], sh[0], sh[2]]).2
+      = [.pending 1, .verifyFail, .pending 1, .duplicate, .proceeds] ∧
+    (rotRun ⟨2, [66, 23], some (3, 3)⟩ [] [[1], sh[0], [9, 9, 1]]).2
+      = [.tooShort, .pending 1, .combineErr .duplicate] := by
   decide
 
 end C20
